@@ -558,6 +558,15 @@ def _seq_of_arrays(x):
 
 
 def np_vstack(ex, st, args, kwargs):
+    parts = args[0]
+    if isinstance(parts, (list, tuple)) and any(isinstance(p, L.GArr) for p in parts):
+        rows, rshape, kind = [], None, "f"
+        for p in parts:
+            g = L.GArr.of(p)
+            if g.rows or rshape is None:
+                rshape = g.row_shape if rshape is None or g.rows else rshape
+            rows.extend(g.rows)
+        return L.GArr(rows, rshape, kind)
     return L.vstack(_seq_of_arrays(args[0]))
 
 
